@@ -163,7 +163,12 @@ func init() {
 		if _, err := upd.SignedAccumulator.UnmarshalVerify(pk); err != nil {
 			return "sig-error"
 		}
-		err := upd.Prepend(revocation.NewEventList(goEvents(absOf(o["prepend"]))...))
+		list := revocation.NewEventList(goEvents(absOf(o["prepend"]))...)
+		if w := o.str("wire"); w != "" {
+			// the list arrives in its wire form, as it would from a revocation server
+			list = wireEventList(list, w)
+		}
+		err := upd.Prepend(list)
 		idx := make([]string, len(upd.Events))
 		for i, e := range upd.Events {
 			idx[i] = fmt.Sprint(e.Index)
@@ -247,6 +252,40 @@ func (c *chain) updateOp(evs []absEvent, accIdx int, data []byte, counter int, v
 	}
 	return Op{"op": "update-verify", "class": class + "-" + transport, "label": label, "key": verifier.id, "transport": transport,
 		"events": te(evs), "view": te(view), "sacc": saccView, "saccbytes": map[string]any{"data": hb(data), "pk": counter}}
+}
+
+// wireEventList sends an event list through its JSON or CBOR wire form (real encoder and decoder).
+func wireEventList(l *revocation.EventList, wire string) *revocation.EventList {
+	out := &revocation.EventList{}
+	switch wire {
+	case "json":
+		b, err := json.Marshal(l)
+		if err != nil {
+			panic(err)
+		}
+		if err := json.Unmarshal(b, out); err != nil {
+			panic(err)
+		}
+	case "cbor":
+		b, err := cbor.Marshal(l, cbor.EncOptions{})
+		if err != nil {
+			panic(err)
+		}
+		if err := cbor.Unmarshal(b, out); err != nil {
+			panic(err)
+		}
+	default:
+		panic("wire " + wire)
+	}
+	return out
+}
+
+func absEvents(l *revocation.EventList) []absEvent {
+	r := make([]absEvent, len(l.Events))
+	for i, e := range l.Events {
+		r[i] = absEvent{e.Index, new(big.Int).Set(e.E), append([]byte{}, e.ParentHash...)}
+	}
+	return r
 }
 
 func cloneEvs(evs []absEvent) []absEvent {
@@ -459,33 +498,45 @@ func genC10(g *Rng, tier string, emit func(Op)) {
 						pre[g.intn(len(pre))].E = g.bits(90)
 						class = "prepend-corrupt"
 					}
-					merged := append(append([]absEvent{}, pre...), func() []absEvent {
-						mn := 1 + int(pre[len(pre)-1].Index) - int(evs[0].Index)
-						if mn < 0 || mn > len(evs) {
-							return nil
+					for _, wire := range []string{"", "json", "cbor"} {
+						pre := pre
+						class := class
+						if wire != "" {
+							if (a+lo+hi)%2 == 0 && tier != "thorough" && class == "prepend" {
+								continue
+							}
+							// what the decoder makes of the list (it recomputes the parent hashes)
+							pre = absEvents(wireEventList(revocation.NewEventList(goEvents(pre)...), wire))
+							class += "-" + wire
 						}
-						return evs[mn:]
-					}()...)
-					ok := int(pre[len(pre)-1].Index)+1 >= int(evs[0].Index) && 1+int(pre[len(pre)-1].Index)-int(evs[0].Index) <= len(evs) &&
-						specVerify(merged, true, true, c.accs[n].EventHash)
-					exp := evs
-					label := "err"
-					if ok {
-						exp, label = merged, "ok"
-					}
-					_ = exp
-					te := func(l []absEvent) []any {
-						r := make([]any, len(l))
-						for i, e := range l {
-							r[i] = e.tree()
+						merged := append(append([]absEvent{}, pre...), func() []absEvent {
+							mn := 1 + int(pre[len(pre)-1].Index) - int(evs[0].Index)
+							if mn < 0 || mn > len(evs) {
+								return nil
+							}
+							return evs[mn:]
+						}()...)
+						ok := int(pre[len(pre)-1].Index)+1 >= int(evs[0].Index) && 1+int(pre[len(pre)-1].Index)-int(evs[0].Index) <= len(evs) &&
+							specVerify(merged, true, true, c.accs[n].EventHash)
+						exp := evs
+						label := "err"
+						if ok {
+							exp, label = merged, "ok"
 						}
-						return r
+						_ = exp
+						te := func(l []absEvent) []any {
+							r := make([]any, len(l))
+							for i, e := range l {
+								r[i] = e.tree()
+							}
+							return r
+						}
+						_, av := sigView(c.signed[n], kp.pk.ECDSA)
+						emit(Op{"op": "update-prepend", "class": class, "label": label, "key": kp.id,
+							"events": te(evs), "prepend": te(pre), "wire": wire,
+							"sacc":      map[string]any{"nu": av.Nu.Text(16), "index": hxi(int64(av.Index)), "time": hxi(av.Time), "eventhash": hb(av.EventHash), "pk": int(kp.pk.Counter), "sigok": true},
+							"saccbytes": map[string]any{"data": hb(c.signed[n]), "pk": int(kp.pk.Counter)}})
 					}
-					_, av := sigView(c.signed[n], kp.pk.ECDSA)
-					emit(Op{"op": "update-prepend", "class": class, "label": label, "key": kp.id,
-						"events": te(evs), "prepend": te(pre),
-						"sacc":      map[string]any{"nu": av.Nu.Text(16), "index": hxi(int64(av.Index)), "time": hxi(av.Time), "eventhash": hb(av.EventHash), "pk": int(kp.pk.Counter), "sigok": true},
-						"saccbytes": map[string]any{"data": hb(c.signed[n]), "pk": int(kp.pk.Counter)}})
 				}
 			}
 		}
